@@ -119,6 +119,20 @@ theorem C13_rollbackTrie (H : Bytes → Bytes) (hlen : ∀ x, (H x).length = 32)
          r.created = [] ∧ r.tempDeleted = [] ∧ r.pending = [] ∧ r.deleted = [])) :=
   rollbackTrie_restores H hlen hcl hinj lvl t t0 t1 hdb hcp hw0 h1 hp hd hS0 hS1
 
+set_option maxRecDepth 100000 in
+/-- the collision-freeness hypothesis is satisfiable (it is relative to the nodes of the tries involved): the toy hash
+    on the nodes of a one-key trie -/
+example : HashInj toyH (fun x => PT.Sub x (.short [1] (.value [0xaa] 2))) ∧
+    SubClosed (fun x => PT.Sub x (.short [1] (.value [0xaa] 2))) := by
+  refine ⟨?_, subClosed_sub _⟩
+  intro x y hx hy he
+  simp only [PT.Sub] at hx hy
+  rcases hx with rfl | rfl <;> rcases hy with rfl | rfl
+  · rfl
+  · exact absurd he (by decide)
+  · exact absurd he (by decide)
+  · rfl
+
 set_option maxRecDepth 1000000 in
 /-- the scenario is realisable (toy hash, `decide`): checkpoint {A ↦ x, D ↦ y} committed; SaveRoot; a same-value re-write
     of A (the case that used to destroy the checkpoint), a new value for D, a new key; Commit 1; Rollback ⇒ the trie shows
